@@ -197,6 +197,8 @@ class EngineBase:
         else:
             cls = v[4:] if v.startswith('ref:') else (v if v in self.spec.entities else None)
             d = DictObj(keys, nk, 'ref' if cls else v, vals=z3.Const(fresh_name(base + '.vals'), IntArr), vcls=cls, label=base)
+        if kty in self.spec.entities:
+            d.kcls = kty
         return d
 
     def lift(self, v):
